@@ -55,7 +55,7 @@ def Table.find (t : Table) (k : Bytes) : Option Nat :=
   | [] => none
   | (k', v) :: rest => if k' = k then some v else Table.find rest k
 
-def ptrLimit : Nat := 65535 / 2 ^ Facts.pack_ptrShift   -- int(^uint16(0)>>2) = 0x3FFF
+def ptrLimit : Nat := 16383   -- int(^uint16(0)>>2) = 0x3FFF; tied by translation: `ptrFits_translated` (Lemmas/TranslatedC02)
 
 /-- Register every suffix of the (valid, fully written) name `n` that starts at offset
     `≤ 0x3FFF`; `pos` is the absolute offset of the current suffix. -/
